@@ -79,6 +79,11 @@ type c12Case struct {
 	Truncate int        `json:"truncate,omitempty"` // > 0: the input is cut to this many bytes
 	// NoRelease[i%len] says that record i is NOT handed back through Release (the next Read must cope)
 	NoRelease []bool `json:"no_release,omitempty"`
+	// Hier != nil: the reader's subject is a generated declaration hierarchy (edi / csv2 / fixedlength2: groups, nested
+	// records, the target anywhere - also on a group) instead of Shape/Recs; Shape then only names the format
+	Hier  *gen.Hierarchy `json:"hier,omitempty"`
+	Units []model.HUnit  `json:"units,omitempty"`
+	HR    *gen.HRender   `json:"hrender,omitempty"`
 
 	// conc: Batches[g] is goroutine g's script: sizes of the trees it builds, holds and releases;
 	// Churn is the number of bare acquire/release cycles each goroutine adds at the end.
@@ -170,6 +175,20 @@ func genC12(t *rapid.T) c12Case {
 		return c
 	case k >= 500 && k < 900: // ~10 %: reader
 		c := c12Case{Kind: "reader"}
+		if rapid.IntRange(0, 3).Draw(t, "hierArm") == 0 {
+			format := rapid.SampledFrom([]string{"edi", "csv2", "fixedlength2"}).Draw(t, "hierFormat")
+			h := gen.DrawHierarchy(t, format, gen.HierOpts{Tags: []string{"A", "B", "C", "D"}})
+			c.Hier = &h
+			c.Units = gen.DrawUnits(t, h, []string{"A", "B", "C", "D"})
+			r := gen.DrawHRender(t, format, len(c.Units))
+			c.HR = &r
+			c.Shape = &gen.Shape{Format: format}
+			if rapid.IntRange(0, 5).Draw(t, "truncated") == 3 {
+				c.Truncate = rapid.IntRange(1, len(c.readerInput())+1).Draw(t, "truncate")
+			}
+			c.NoRelease = rapid.SliceOfN(rapid.Bool(), 1, 4).Draw(t, "noRelease")
+			return c
+		}
 		s := gen.DrawShape(t, gen.ShapeOpts{PlainOnly: true, NoIntCol: true})
 		c.Shape = &s
 		c.Recs = gen.DrawRecs(t, s, "r", 0, 7, gen.ValueOpts{})
@@ -642,24 +661,41 @@ func c12NewReader(schema string, input []byte) (fileformat.FormatReader, error) 
 	return nil, fmt.Errorf("no built-in file format accepted the schema")
 }
 
+func (c c12Case) readerInput() []byte {
+	if c.Hier != nil && c.HR != nil {
+		return c.Hier.RenderUnits(c.Units, *c.HR)
+	}
+	return c.Shape.Render(c.Recs)
+}
+
+func (c c12Case) readerSchema() string {
+	if c.Hier != nil && c.HR != nil {
+		return c.Hier.Schema(*c.HR)
+	}
+	return c.Shape.Schema()
+}
+
 func c12RunReader(c c12Case) obs.Result {
 	if c.Shape == nil {
 		return obs.Result{Excluded: "reader case without shape"}
 	}
-	in := c.Shape.Render(c.Recs)
+	in := c.readerInput()
 	if c.Truncate > 0 && c.Truncate < len(in) {
 		in = in[:c.Truncate]
 	}
-	rd, err := c12NewReader(c.Shape.Schema(), in)
+	rd, err := c12NewReader(c.readerSchema(), in)
 	if err != nil {
-		return obs.Violationf("generated schema rejected: %v\n%s", err, c.Shape.Schema())
+		return obs.Violationf("generated schema rejected: %v\n%s", err, c.readerSchema())
 	}
 	classes := map[string]bool{"kind=reader": true, "format=" + c.Shape.Format: true}
+	if c.Hier != nil {
+		classes["reader:hierarchy"] = true
+	}
 	if c.Truncate > 0 {
 		classes["truncated-input"] = true
 	}
 	describe := func() string {
-		return fmt.Sprintf("format=%s schema=%s\ninput=%q", c.Shape.Format, c.Shape.Schema(), in)
+		return fmt.Sprintf("format=%s schema=%s\ninput=%q", c.Shape.Format, c.readerSchema(), in)
 	}
 
 	// released: pointer -> ID the node had while it was part of a delivered record that has been released since
@@ -784,7 +820,7 @@ func c12ThroughTransform(c c12Case, in []byte) string {
 			in = spliced
 		}
 	}
-	sch, err := omniparser.NewSchema("schema", strings.NewReader(c.Shape.Schema()))
+	sch, err := omniparser.NewSchema("schema", strings.NewReader(c.readerSchema()))
 	if err != nil {
 		return ""
 	}
